@@ -269,10 +269,6 @@ class NoPanicNoHang:
                 raise Violation('blocking-send-under-lock', {'task': ev[1], 'channel': ev[2]}, 'handler.send', 'payments-lock-held')
             if ev[0] == 'deadlock':
                 raise Violation('self-deadlock', {'task': ev[1]}, 'lock', 'relock')
-            if ev[0] == 'oneshot_dropped_unsent':
-                key = m.st.roots.get('os_of', {}).get(ev[1])
-                if key is not None and key[0] == m.st.roots['epoch']:
-                    raise Violation('listener-dropped-unanswered', {'htlc': key[1]}, 'listener', 'dropped')
     def on_quiescent(self, m, sc):
         st = m.st
         waiting = [st.roots['task_of'][t.tid] for t in st.sched.tasks if t.tid in st.roots['task_of'] and t.status == 'blocked']
